@@ -37,9 +37,12 @@ type Engine struct {
 	Workers    int
 	MaxPaths   int
 
-	Tier              int
-	ReverseMaps       bool
-	LazySlices        bool
+	Tier        int
+	ReverseMaps bool
+	LazySlices  bool
+	// ReplayModel != nil: every fresh symbol takes its value from this model
+	// (concrete re-execution of a counterexample in the interpreter)
+	ReplayModel       map[string]uint64
 	SamplesPerHarness int
 	RunGoInline       bool
 	SkipInit          map[string]bool
@@ -144,18 +147,19 @@ func (e *Engine) FindFunc(pkgPath, name string) *ssa.Function {
 // results
 
 type Violation struct {
-	Kind     string            `json:"kind"` // assert | panic | alloc | hang
-	ID       string            `json:"id"`
-	Msg      string            `json:"msg"`
-	Site     string            `json:"site"`
-	RepoFn   string            `json:"repo_fn"`
-	RepoFile string            `json:"repo_file"`
-	RepoLine int               `json:"repo_line"`
-	SrcText  string            `json:"src_text"`
-	Tape     []TapeEntry       `json:"tape"`
-	Stack    []string          `json:"stack,omitempty"`
-	Harness  string            `json:"harness"`
-	Model    map[string]uint64 `json:"-"`
+	Kind      string            `json:"kind"` // assert | panic | alloc | hang
+	ID        string            `json:"id"`
+	Msg       string            `json:"msg"`
+	Site      string            `json:"site"`
+	RepoFn    string            `json:"repo_fn"`
+	RepoFile  string            `json:"repo_file"`
+	RepoLine  int               `json:"repo_line"`
+	SrcText   string            `json:"src_text"`
+	Tape      []TapeEntry       `json:"tape"`
+	Stack     []string          `json:"stack,omitempty"`
+	Harness   string            `json:"harness"`
+	Model     map[string]uint64 `json:"model,omitempty"`
+	Decisions []int             `json:"decisions,omitempty"`
 }
 
 // Key identifies the failing site independent of line numbers.
@@ -189,6 +193,7 @@ type PathResult struct {
 	Decisions        []int
 	Stack            []string
 	ForkSites        []string
+	ReplayMissing    []string
 	PortfolioQueries int
 	NoNative         bool        // path depends on environment choices the native replay cannot force (crash point, injected fault, clock, select)
 	SampleTape       []TapeEntry // a concrete input driving this path (translator validation)
@@ -228,6 +233,7 @@ type HarnessResult struct {
 	Events          map[string]int
 	NontrivialPaths int
 	ForkSites       map[string]int
+	replayMissing   bool
 	SampleTapes     []SamplePath
 	sampleWant      int
 }
@@ -332,6 +338,9 @@ func (e *Engine) Explore(fn *ssa.Function, name string) *HarnessResult {
 				}
 				if len(res.Reached) > 0 {
 					hr.NontrivialPaths++
+				}
+				if len(res.ReplayMissing) > 0 {
+					hr.replayMissing = true
 				}
 				if res.SampleTape != nil && len(hr.SampleTapes) < e.SamplesPerHarness {
 					hr.SampleTapes = append(hr.SampleTapes, SamplePath{Tape: res.SampleTape, Reached: res.Reached})
@@ -456,6 +465,18 @@ func (in *Interp) inputTerms() []*smt.Term {
 			ts = append(ts, i.Term)
 		}
 	}
+	// plus every other fresh symbol (hash outputs, internal choices), so that
+	// a counterexample can be re-executed concretely
+	seen := map[int]bool{}
+	for _, t := range ts {
+		seen[t.ID] = true
+	}
+	for _, t := range in.freshTerms {
+		if !seen[t.ID] {
+			seen[t.ID] = true
+			ts = append(ts, t)
+		}
+	}
 	return ts
 }
 
@@ -557,4 +578,20 @@ func sortedKeys[V any](m map[string]V) []string {
 	}
 	sort.Strings(ks)
 	return ks
+}
+
+// ReplayConcrete re-executes harness fn with every fresh symbol fixed to the
+// model's value: a fully concrete run of the real SSA inside the interpreter.
+// It returns the violation keys that occur on that single concrete path.
+func (e *Engine) ReplayConcrete(fn *ssa.Function, name string, model map[string]uint64) (keys map[string]bool, concrete bool) {
+	savedW, savedS := e.Workers, e.SamplesPerHarness
+	e.ReplayModel = model
+	e.Workers, e.SamplesPerHarness = 1, 0
+	defer func() { e.ReplayModel = nil; e.Workers, e.SamplesPerHarness = savedW, savedS }()
+	hr := e.Explore(fn, name)
+	keys = map[string]bool{}
+	for k := range hr.Violations {
+		keys[k] = true
+	}
+	return keys, hr.Paths == 1 && !hr.replayMissing
 }
